@@ -402,8 +402,8 @@ pub fn property() -> Property {
             "non-ASCII algorithm names are outside the generated domain",
         ],
         streams: vec![
-            random_stream("schedules", "data x read schedule (short reads, Interrupted)", case_strategy, |t| t.pick(8_000, 100_000), check),
-            random_stream("faults", "data x read schedule with one hard I/O error", fault_strategy, |t| t.pick(4_000, 40_000), check),
+            random_stream("schedules", "data x read schedule (short reads, Interrupted)", case_strategy, |t| t.pick(8_000, 300_000), check),
+            random_stream("faults", "data x read schedule with one hard I/O error", fault_strategy, |t| t.pick(4_000, 150_000), check),
             enumerated_stream("names", "all case variants of the six names + near misses", names, check_name),
         ],
         selfcheck: m::selfcheck,
